@@ -116,6 +116,25 @@ class MafColumnRecord:
                         line_number=line_number,
                     )
                 )
+            elif (
+                type(self) is not scheme_column_class
+                and scheme_column_class is not MafColumnRecord
+                and not self.validation_errors
+            ):
+                # a column of a sub-class of the scheme's class: its value and
+                # its text must also be what the scheme's own class allows
+                # (e.g. a nullable sub-class holding its null value is not)
+                twin = scheme_column_class(self.key, self.value, self.column_index)  # type: ignore
+                if twin.validate() or str(twin) != str(self):
+                    add_errors(
+                        MafValidationError(
+                            MafValidationErrorType.RECORD_COLUMN_WRONG_FORMAT,
+                            "Column with name '%s' of type '%s' holds a value "
+                            "that is not valid for the type '%s' of the scheme"
+                            % (self.key, str(self.__class__), str(scheme_column_class)),
+                            line_number=line_number,
+                        )
+                    )
 
         return self.validation_errors
 
